@@ -505,16 +505,39 @@ func writeReplay(repo, root string, h HSpec, v engine.Violation, tier, dir strin
 // writeOverlay writes overlay.json (harness sources of the package, the API
 // shim and the replay/self-test test file) into dir.
 func writeOverlay(repo, root, pkgDir, dir string, tries int) error {
-	hdir := filepath.Join(root, "harness", pkgDir)
-	ents, err := os.ReadDir(hdir)
+	repl := map[string]string{}
+	api, err := os.ReadFile(filepath.Join(root, "harness", "_api", "zz_vf_api.go.tmpl"))
 	if err != nil {
 		return err
 	}
-	repl := map[string]string{}
-	pkg := "main"
-	for _, e := range ents {
-		if strings.HasPrefix(e.Name(), "zz_vf_") && strings.HasSuffix(e.Name(), ".go") {
-			repl[filepath.Join(repo, pkgDir, e.Name())] = filepath.Join(hdir, e.Name())
+	stubRe := regexp.MustCompile(`func vfStub_([A-Za-z0-9]+)_([A-Za-z0-9]+)\(`)
+	// every package that has harness files gets them (a harness may drive code
+	// in other packages whose environment stubs live next to that code)
+	var hdirs []string
+	filepath.Walk(filepath.Join(root, "harness"), func(path string, info os.FileInfo, err error) error {
+		if err == nil && info.IsDir() {
+			rel, _ := filepath.Rel(filepath.Join(root, "harness"), path)
+			if rel != "." && !strings.HasPrefix(rel, "_") {
+				hdirs = append(hdirs, rel)
+			}
+		}
+		return nil
+	})
+	targetPkg := ""
+	for _, hd := range hdirs {
+		hdir := filepath.Join(root, "harness", hd)
+		ents, err := os.ReadDir(hdir)
+		if err != nil {
+			continue
+		}
+		pkg := ""
+		type stub struct{ pkg, fn string }
+		var stubs []stub
+		for _, e := range ents {
+			if e.IsDir() || !strings.HasPrefix(e.Name(), "zz_vf_") || !strings.HasSuffix(e.Name(), ".go") {
+				continue
+			}
+			repl[filepath.Join(repo, hd, e.Name())] = filepath.Join(hdir, e.Name())
 			b, _ := os.ReadFile(filepath.Join(hdir, e.Name()))
 			for _, l := range strings.Split(string(b), "\n") {
 				if strings.HasPrefix(l, "package ") {
@@ -522,62 +545,60 @@ func writeOverlay(repo, root, pkgDir, dir string, tries int) error {
 					break
 				}
 			}
-		}
-	}
-	// native environment stubs: calls <pkg>.<Func>( in the package's own files
-	// are redirected to the harness's vfStub_<pkg>_<Func> in a rewritten copy
-	// of the current source (the engine does the same redirection by name).
-	stubRe := regexp.MustCompile(`func vfStub_([A-Za-z0-9]+)_([A-Za-z0-9]+)\(`)
-	type stub struct{ pkg, fn string }
-	var stubs []stub
-	for _, e := range ents {
-		if strings.HasPrefix(e.Name(), "zz_vf_") && strings.HasSuffix(e.Name(), ".go") {
-			b, _ := os.ReadFile(filepath.Join(hdir, e.Name()))
 			for _, m := range stubRe.FindAllStringSubmatch(string(b), -1) {
 				stubs = append(stubs, stub{m[1], m[2]})
 			}
 		}
-	}
-	if len(stubs) > 0 {
-		srcs, _ := os.ReadDir(filepath.Join(repo, pkgDir))
-		for _, e := range srcs {
-			n := e.Name()
-			if e.IsDir() || !strings.HasSuffix(n, ".go") || strings.HasSuffix(n, "_test.go") || strings.HasPrefix(n, "zz_vf_") {
-				continue
-			}
-			b, err := os.ReadFile(filepath.Join(repo, pkgDir, n))
-			if err != nil {
-				continue
-			}
-			src := string(b)
-			changed := false
-			keep := ""
-			for _, st := range stubs {
-				call := st.pkg + "." + st.fn + "("
-				if strings.Contains(src, call) {
-					src = strings.ReplaceAll(src, call, "vfStub_"+st.pkg+"_"+st.fn+"(")
-					keep += "\nvar _ = " + st.pkg + "." + st.fn
-					changed = true
+		if pkg == "" {
+			continue
+		}
+		tag := strings.ReplaceAll(hd, "/", "_")
+		apiPath := filepath.Join(dir, "zz_vf_api_"+tag+".go.txt")
+		os.WriteFile(apiPath, []byte(strings.Replace(string(api), "package PKG", "package "+pkg, 1)), 0o644)
+		repl[filepath.Join(repo, hd, "zz_vf_api.go")] = apiPath
+		if hd == pkgDir {
+			targetPkg = pkg
+		}
+		// native environment stubs: calls <pkg>.<Func>( in the package's own
+		// files are redirected to vfStub_<pkg>_<Func> in a rewritten copy of the
+		// current source (the engine does the same redirection by name)
+		if len(stubs) > 0 {
+			srcs, _ := os.ReadDir(filepath.Join(repo, hd))
+			for _, e := range srcs {
+				n := e.Name()
+				if e.IsDir() || !strings.HasSuffix(n, ".go") || strings.HasSuffix(n, "_test.go") || strings.HasPrefix(n, "zz_vf_") {
+					continue
 				}
-			}
-			if changed {
-				out := filepath.Join(dir, "rewritten_"+n+".txt")
-				os.WriteFile(out, []byte(src+keep+"\n"), 0o644)
-				repl[filepath.Join(repo, pkgDir, n)] = out
+				b, err := os.ReadFile(filepath.Join(repo, hd, n))
+				if err != nil {
+					continue
+				}
+				src := string(b)
+				changed := false
+				keep := ""
+				for _, st := range stubs {
+					call := st.pkg + "." + st.fn + "("
+					if strings.Contains(src, call) {
+						src = strings.ReplaceAll(src, call, "vfStub_"+st.pkg+"_"+st.fn+"(")
+						keep += "\nvar _ = " + st.pkg + "." + st.fn
+						changed = true
+					}
+				}
+				if changed {
+					out := filepath.Join(dir, "rewritten_"+tag+"_"+n+".txt")
+					os.WriteFile(out, []byte(src+keep+"\n"), 0o644)
+					repl[filepath.Join(repo, hd, n)] = out
+				}
 			}
 		}
 	}
-	api, err := os.ReadFile(filepath.Join(root, "harness", "_api", "zz_vf_api.go.tmpl"))
-	if err != nil {
-		return err
+	if targetPkg == "" {
+		return fmt.Errorf("no harness files for %s", pkgDir)
 	}
-	apiPath := filepath.Join(dir, "zz_vf_api.go")
-	os.WriteFile(apiPath, []byte(strings.Replace(string(api), "package PKG", "package "+pkg, 1)), 0o644)
-	repl[filepath.Join(repo, pkgDir, "zz_vf_api.go")] = apiPath
 	if tries == 0 {
 		tries = 1
 	}
-	test := strings.Replace(replayTestTmpl, "package PKG", "package "+pkg, 1)
+	test := strings.Replace(replayTestTmpl, "package PKG", "package "+targetPkg, 1)
 	test = strings.Replace(test, "TRIES", fmt.Sprint(tries), 1)
 	testPath := filepath.Join(dir, "zz_vf_replay_test.go.txt")
 	os.WriteFile(testPath, []byte(test), 0o644)
